@@ -273,12 +273,15 @@ class Assembler:
                             cur_field = ('head-all',)
                         elif d == 'prefix':
                             cur_field = ('prefix',)
-                        elif re.match(r'loop-(head|tail|before|after)\s', d):
+                        elif re.match(r'loop-(head|tail|before|after)\??\s', d):
                             # ghost text addressed by LOOP (ordinal or /header text/), not by statement text: put right after
                             # the '{' of the loop body (head), right before its '}' (tail), or before the loop statement
                             # (before) or after its closing '}' (after).  Survives renamings and statement edits inside the loop that a `hint` anchor does not.
-                            mo_ = re.match(r'loop-(head|tail|before|after)\s+(.*)$', d)
-                            cur_field = ('loop-part', mo_.group(1), _loop_key(mo_.group(2).strip()))
+                            # `loop-head? KEY` etc.: optional like `loop?` (skipped when the loop does not exist)
+                            mo_ = re.match(r'loop-(head|tail|before|after)(\??)\s+(.*)$', d)
+                            cur_field = ('loop-part', mo_.group(1), _loop_key(mo_.group(3).strip()))
+                            if mo_.group(2):
+                                blk.cur.optional.add(('loop-part', mo_.group(1), cur_field[2]))
                         elif d == 'fn-prefix':
                             # like `prefix`, but for the fn target addressed by the preceding `//@ fn NAME` of a whole impl/trait
                             cur_field = ('fn-prefix',)
@@ -491,7 +494,8 @@ class Assembler:
                 except OSError:
                     raise UnitSyntax('include file %s not found' % inc)
                 for l2 in self._with_includes(inc_lines, depth + 1):
-                    out.append(re.sub(r'^(\s*)//@ extract(\??) ', r'\1//@ extract\2 !decl ', l2))
+                    # (idempotent: a block that already is a declaration through a nested include-external stays one)
+                    out.append(re.sub(r'^(\s*)//@ extract(\??) (?!!decl )', r'\1//@ extract\2 !decl ', l2))
                 continue
             if not m:
                 out.append(ln)
@@ -1091,7 +1095,7 @@ class Assembler:
                     if n not in seen_loops and ('loop', n) not in tgt.optional:
                         raise AnchorLost('fn %s has no loop #%s (found %d) in %s' % (tgt.name, n, loop_no, blk.relpath))
                 for (part_, pkey_) in tgt.loop_parts:
-                    if ('part', part_, pkey_) not in seen_loops:
+                    if ('part', part_, pkey_) not in seen_loops and ('loop-part', part_, pkey_) not in tgt.optional:
                         raise AnchorLost('fn %s has no loop #%s (found %d) for loop-%s in %s' % (tgt.name, pkey_, loop_no, part_, blk.relpath))
                 lo, hi = st[a].end, st[b].start
                 for stmt, htext, after in tgt.hints:
